@@ -56,7 +56,7 @@ impl Prop for P {
     }
     fn strategy(tier: Tier) -> BoxedStrategy<Case> {
         let data = match tier {
-            Tier::Quick => prop_oneof![7 => recipe(3000, 4), 2 => recipe(40_000, 3), 1 => recipe(200_000, 2)].boxed(),
+            Tier::Quick => prop_oneof![7 => recipe(3000, 4), 2 => recipe(40_000, 3), 1 => recipe(200_000, 2), 2 => crate::gen::data::recipe_wrap()].boxed(),
             Tier::Thorough => prop_oneof![6 => recipe(3000, 5), 3 => recipe(60_000, 4), 1 => recipe(1_000_000, 3)].boxed(),
         };
         let driver = prop_oneof![Just(Driver::Buf), Just(Driver::Callback), Just(Driver::Stream)];
